@@ -610,6 +610,7 @@ func checkC01(p *Program, r *Report) {
 	c01membership(p, r, addrTypes)
 	c01hashing(p, r, addrTypes)
 	c01total(p, r, addrTypes)
+	c01slpPrefix(p, r)
 	// round 7 (C01-agent7-m3): a setter of an address type stores its argument on every path (a range guard that is off by
 	// one silently dropped SetFormat(PKFHybrid), so the hybrid rendering could not be reached any more)
 	for _, nt := range addrTypes {
@@ -1204,6 +1205,41 @@ func c01total(p *Program, r *Report, addrTypes []*types.Named) {
 			how = "content-dependent uses: " + strings.Join(uses, "; ")
 		}
 		r.Add("C01.total", FnName(fn), "the hash-taking constructor treats the hash bytes as opaque (every hash of the right length is accepted)", fn.Pos(), len(uses) == 0, how)
+		// sweep survivor (`len(hash) != size` turned into `==`): an accepting return knows the hash has exactly the size of
+		// the type's hash array — unless the constructor only delegates to another one that is checked here
+		{
+			lcx := NewLinCtx(p, fn)
+			want := arrayFieldLen(nt)
+			for i, ap := range acceptPoints(fn) {
+				if ap.Delegate != nil {
+					continue
+				}
+				delegated := false
+				if ex, ok := ap.Ret.Results[0].(*ssa.Extract); ok {
+					if _, isC := ex.Tuple.(*ssa.Call); isC {
+						delegated = true
+					}
+				}
+				// a result that came out of another constructor of the family (the SLP variants re-label it)
+				for _, b := range fn.Blocks {
+					for _, in := range b.Instrs {
+						if c, ok := in.(*ssa.Call); ok && c.Call.StaticCallee() != nil && p.InRepo(c.Call.StaticCallee()) {
+							for _, a := range c.Call.Args {
+								if a == ssa.Value(fn.Params[0]) {
+									delegated = true
+								}
+							}
+						}
+					}
+				}
+				if delegated {
+					continue
+				}
+				f := lcx.FactsOf(MustConds(fn, ap))
+				okLen := lcx.EntailsEq(f, lcx.LenLin(fn.Params[0]).addConst(-want))
+				r.Add("C01.total", FnName(fn), fmt.Sprintf("accepting return #%d knows the hash has exactly %d bytes", i+1, want), ap.Ret.Pos(), okLen, "len(hash) == size of the hash array on every accepting path")
+			}
+		}
 	}
 	if n == 0 {
 		r.Unresolved("C01.total", "hash-taking address constructors")
@@ -1276,4 +1312,75 @@ func addrPureRule(p *Program, r *Report, rule string, addrTypes []*types.Named) 
 		r.Add(rule, FnName(fn), "the operation leaves its arguments (and package-level state) untouched", fn.Pos(), len(bad) == 0, how)
 	}
 	return n
+}
+
+// c01slpPrefix (sweep survivor, address.go NewSlpAddressScriptHash32FromHash `addr != nil` → `== nil`): a constructor that
+// re-labels an address with the network's SLP prefix does so for EVERY address it hands out — no return is reachable,
+// around the store, on a path that has not established that the address is nil.
+func c01slpPrefix(p *Program, r *Report) {
+	n := 0
+	for _, fn := range pkgFuncs(p, "") {
+		if fn.Pkg != p.Pkg("") || fn.Parent() != nil {
+			continue
+		}
+		for _, b := range fn.Blocks {
+			for _, in := range b.Instrs {
+				st, ok := in.(*ssa.Store)
+				if !ok {
+					continue
+				}
+				f, _, isF := fieldLoad(st.Val)
+				if !isF || f.Name() != "SlpAddressPrefix" {
+					continue
+				}
+				fa, ok := st.Addr.(*ssa.FieldAddr)
+				if !ok {
+					continue
+				}
+				obj := fa.X // the address being re-labelled
+				n++
+				// search: entry → return, never entering b, never taking an edge that says obj == nil
+				type stt struct{ blk *ssa.BasicBlock }
+				seen := map[*ssa.BasicBlock]bool{}
+				var bad *ssa.Return
+				var walk func(x *ssa.BasicBlock)
+				walk = func(x *ssa.BasicBlock) {
+					if seen[x] || x == b || bad != nil {
+						return
+					}
+					seen[x] = true
+					if ret, isR := lastInstr(x).(*ssa.Return); isR {
+						if len(ret.Results) > 0 && !isNilConst(ret.Results[0]) {
+							bad = ret
+						}
+						return
+					}
+					iff, isIf := lastInstr(x).(*ssa.If)
+					for k, nx := range x.Succs {
+						if isIf {
+							if bo, isB := iff.Cond.(*ssa.BinOp); isB && (bo.Op == token.EQL || bo.Op == token.NEQ) {
+								if (bo.X == obj && isNilConst(bo.Y)) || (bo.Y == obj && isNilConst(bo.X)) {
+									saysNil := (bo.Op == token.EQL) == (k == 0)
+									if saysNil {
+										continue // on this edge the address is nil: nothing to re-label
+									}
+								}
+							}
+						}
+						walk(nx)
+					}
+				}
+				walk(fn.Blocks[0])
+				how := "every return that can hand out an address passes the store of the SLP prefix"
+				pos := st.Pos()
+				if bad != nil {
+					how = "a return at " + p.Pos(bad.Pos()) + " can hand out an address that was not given the SLP prefix"
+				}
+				r.Add("C01.membership", FnName(fn), "the SLP constructor re-labels every address it returns", pos, bad == nil, how)
+			}
+		}
+	}
+	if n == 0 {
+		r.Unresolved("C01.membership", "constructors storing Params.SlpAddressPrefix")
+	}
 }
